@@ -23,6 +23,7 @@ func runC18(p *eng.Prog, r *eng.Report, tier string) {
 	// ---- C18.9 the role/affiliation vocabularies are decoded completely (a
 	// self-presence with an unknown role is dropped and Join never returns)
 	c19EnumLoops(c, "C18.9", func(f *eng.Fn) bool { return strings.HasPrefix(f.Short, "muc.") })
+	staleNotification(c, "C18.10")
 	// ---- C18.1 key agreement, C18.2 locks -------------------------------------
 	n := 0
 	for _, f := range c.allFns() {
